@@ -72,7 +72,8 @@ def gen_transport(rng, v6):
         c = rng.choice([0, 0, 0, 1, rng.below(256)])
         body = rng.bytes(rng.choice([0, 4, 6, 11, 12, 13, 16, rng.below(40)]))
         if t in (13, 14) and rng.chance(1, 2):
-            body = rng.bytes(12)
+            # timestamp messages are exactly 20 bytes: exact, cut short and oversized ones
+            body = rng.bytes(rng.choice([16, 16, 16, 12, 15, 17, 20, 28]))
         return (1 if rng.chance(9, 10) else 58), bytes([t, c]) + rng.bytes(2) + body, "icmp4"
     if k < 10:  # ICMPv6
         t = rng.choice([1, 2, 3, 4, 128, 129, 133, 134, 135, 136, 137, rng.below(256)])
